@@ -178,7 +178,7 @@ def loaded_column(group, stored_name, ndim):
     return None, None
 
 
-def check_mesh(m, cfg, out, ds, owners=None, lmax=None, tag="", level_ok=None, variables=None, row_filter=None):
+def check_mesh(m, cfg, out, ds, owners=None, lmax=None, tag="", level_ok=None, variables=None, row_filter=None, prov=("hydro", "density"), geometry=None):
     """Compare ds['mesh'] with the tree oracle.  owners: set of 0-based cpus whose cells are expected."""
     ndim = cfg["ndim"]
     two = 2 ** ndim
@@ -192,17 +192,19 @@ def check_mesh(m, cfg, out, ds, owners=None, lmax=None, tag="", level_ok=None, v
         m.require("mesh" not in ds or len(ds["mesh"]) == 0 or ds["mesh"].shape in ((), (0,)), "no leaf expected: mesh group empty",
                   key=f"rows:{tag}")
         return
-    if not m.require("mesh" in ds and "density" in ds["mesh"], "mesh group with the hydro variables is present", key=f"rows:{tag}"):
+    pk, pv = prov
+    parr = loaded_column(ds["mesh"], pv, ndim)[0] if "mesh" in ds else None
+    if not m.require(parr is not None, "mesh group with the requested variables is present", key=f"rows:{tag}"):
         return
     g = ds["mesh"]
-    dens = m.vals(g["density"]._array)
-    fd_, dd_ = U.factor_dim(g["density"].unit)
+    dens = m.vals(parr._array)
+    pfac = uf[LC.var_class(pv)][0]
     # row matching by provenance: the density symbol of (oct, ind)
     rowof = {}
     used = set()
     for (o, ind) in leaves:
-        sym = m.t(o.vals["hydro"]["density"][ind])
-        hits = [r for r, t in enumerate(dens) if _mentions(m, t, sym, out, o, ind)]
+        sym = m.t(o.vals[pk][pv][ind])
+        hits = [r for r, t in enumerate(dens) if _mentions(m, t, sym, pfac)]
         if not m.require(len(hits) == 1, f"leaf cell {o.tag}[{ind}] appears exactly once", key=f"rows:{tag}",
                          info={"cell": f"{o.tag}[{ind}]", "hits": len(hits)}):
             return
@@ -238,34 +240,54 @@ def check_mesh(m, cfg, out, ds, owners=None, lmax=None, tag="", level_ok=None, v
                 fs.append(m.close(m.t(col[r]) * f_l, disk * f_or))
     m.check("every stored variable equals the number on disk times the unit factor implied by unit_d/unit_l/unit_t", m.And(fs),
             key=f"values:{tag}")
-    # geometry
+    # geometry (geometry: set of requested amr variable names, None = all)
     fs = []
-    pos = g["position"] if "position" in g else None
-    ok = pos is not None and hasattr(pos, "_xyz") and pos.nvec == ndim if ndim > 1 else ("position_x" in g or pos is not None)
-    if ndim == 1:
-        posc = [g["position_x"]] if "position_x" in g else ([pos.x] if pos is not None else [None])
-    else:
-        posc = [getattr(pos, c) for c in "xyz"[:ndim]] if ok else [None] * ndim
-    if m.require(all(p is not None for p in posc), "cell positions are present (a Vector when ndim > 1)", key=f"geometry-missing:{tag}"):
-        f_p = [U.factor_dim(p.unit) for p in posc]
-        m.require(all(tuple(d) == (1, 0, 0, 0, 0) for _, d in f_p), "positions are lengths", key=f"unit:{tag}:length")
-        cols = [m.vals(p._array) for p in posc]
-        dxa = g["dx"]
-        f_dx = U.factor_dim(dxa.unit)[0]
-        dxs = m.vals(dxa._array)
-        lev = np.asarray(g["level"]._array).astype(object).ravel().tolist()
-        cpu = np.asarray(g["cpu"]._array).astype(object).ravel().tolist()
-        sc = boxlen * unit_l
+    want_pos = geometry is None or all(f"position_{c}" in geometry for c in "xyz"[:ndim])
+    want = lambda nme: geometry is None or nme in geometry
+    sc = boxlen * unit_l
+    if want_pos:
+        pos = g["position"] if "position" in g else None
+        if ndim == 1:
+            posc = [g["position_x"]] if "position_x" in g else ([pos.x] if pos is not None and hasattr(pos, "_xyz") else [None])
+        else:
+            posc = [getattr(pos, c) for c in "xyz"[:ndim]] if (pos is not None and hasattr(pos, "_xyz") and pos.nvec == ndim) else [None] * ndim
+        if m.require(all(p is not None for p in posc), "cell positions are present (a Vector when ndim > 1)", key=f"geometry-missing:{tag}"):
+            f_p = [U.factor_dim(p.unit) for p in posc]
+            m.require(all(tuple(d) == (1, 0, 0, 0, 0) for _, d in f_p), "positions are lengths", key=f"unit:{tag}:length")
+            cols = [m.vals(p._array) for p in posc]
+            for (o, ind) in leaves:
+                r = rowof[(o.tag, ind)]
+                h = 0.5 ** o.level
+                for k in range(ndim):
+                    wantv = (m.t(o.xg[k]) + (((ind >> k) & 1) - 0.5) * h - xb[k]) * boxlen * unit_l
+                    fs.append(m.close(m.t(cols[k][r]) * f_p[k][0], wantv, scale=m.abs(m.t(o.xg[k])) * sc + sc))
+    elif geometry is not None:
+        # partial position components stay scalars under their own names
+        for k, c in enumerate("xyz"[:ndim]):
+            nme = f"position_{c}"
+            if nme in geometry and m.require(nme in g and not hasattr(g[nme], "_xyz"), f"{nme} stays a scalar when a component is missing",
+                                             key=f"geometry-missing:{tag}"):
+                fp = U.factor_dim(g[nme].unit)[0]
+                col = m.vals(g[nme]._array)
+                for (o, ind) in leaves:
+                    r = rowof[(o.tag, ind)]
+                    h = 0.5 ** o.level
+                    wantv = (m.t(o.xg[k]) + (((ind >> k) & 1) - 0.5) * h - xb[k]) * boxlen * unit_l
+                    fs.append(m.close(m.t(col[r]) * fp, wantv, scale=m.abs(m.t(o.xg[k])) * sc + sc))
+    if want("dx") and m.require("dx" in g, "dx present", key=f"geometry-missing:{tag}"):
+        f_dx = U.factor_dim(g["dx"].unit)[0]
+        dxs = m.vals(g["dx"]._array)
         for (o, ind) in leaves:
-            r = rowof[(o.tag, ind)]
-            h = 0.5 ** o.level
-            for k in range(ndim):
-                want = (m.t(o.xg[k]) + (((ind >> k) & 1) - 0.5) * h - xb[k]) * boxlen * unit_l
-                fs.append(m.close(m.t(cols[k][r]) * f_p[k][0], want, scale=m.abs(m.t(o.xg[k])) * sc + sc))
-            fs.append(m.close(m.t(dxs[r]) * f_dx, h * boxlen * unit_l))
-            fs.append(m.eq(m.t(lev[r]), o.level))
-            fs.append(m.eq(m.t(cpu[r]), o.owner + 1))
-        m.check("cell centre, size, level and owning CPU are those of the tree", m.And(fs), key=f"geometry:{tag}")
+            fs.append(m.close(m.t(dxs[rowof[(o.tag, ind)]]) * f_dx, (0.5 ** o.level) * boxlen * unit_l))
+    if want("level") and m.require("level" in g, "level present", key=f"geometry-missing:{tag}"):
+        lev = np.asarray(g["level"]._array).astype(object).ravel().tolist()
+        for (o, ind) in leaves:
+            fs.append(m.eq(m.t(lev[rowof[(o.tag, ind)]]), o.level))
+    if want("cpu") and m.require("cpu" in g, "cpu present", key=f"geometry-missing:{tag}"):
+        cpu = np.asarray(g["cpu"]._array).astype(object).ravel().tolist()
+        for (o, ind) in leaves:
+            fs.append(m.eq(m.t(cpu[rowof[(o.tag, ind)]]), o.owner + 1))
+    m.check("cell centre, size, level and owning CPU are those of the tree", m.And(fs), key=f"geometry:{tag}")
     # vectors and derived variables
     if ndim > 1 and variables is None:
         for fam, names in (("velocity", [f"velocity_{c}" for c in "xyz"[:ndim]]), ("B_left", [f"B_{c}_left" for c in "xyz"[:ndim]]),
@@ -277,7 +299,7 @@ def check_mesh(m, cfg, out, ds, owners=None, lmax=None, tag="", level_ok=None, v
                           f"components of {fam} are assembled into one Vector", key=f"vector:{tag}:{fam}")
     if variables is None:
         fs = []
-        if "mass" in g or True:
+        if True:
             if m.require("mass" in g, "derived variable mass is present", key=f"derived:{tag}:mass"):
                 fm, dm = U.factor_dim(g["mass"].unit)
                 m.require(tuple(dm) == (0, 1, 0, 0, 0), "mass is a mass", key=f"derived:{tag}:mass")
@@ -307,7 +329,7 @@ def check_mesh(m, cfg, out, ds, owners=None, lmax=None, tag="", level_ok=None, v
         m.fail(f"meta['time'] unusable: {e}", key=f"time:{tag}")
 
 
-def _mentions(m, term, sym, out, o, ind):
+def _mentions(m, term, sym, pfac):
     """Does the loaded density term carry the disk symbol of (o, ind)?  Symbolic: the term is
     sym * factor (structural: sym occurs in it); concrete: value equality up to the factor."""
     if term is None:
@@ -315,7 +337,7 @@ def _mentions(m, term, sym, out, o, ind):
     if m.symbolic:
         import z3
         return _occurs(term, sym)
-    return abs(term - sym * out.cfg["unit_d"]) <= 1e-9 * abs(sym * out.cfg["unit_d"]) + 1e-300
+    return abs(term - sym * pfac) <= 1e-9 * abs(sym * pfac) + 1e-300
 
 
 def _occurs(term, sym):
